@@ -365,3 +365,51 @@ def judge_equality_exits(db, funcs, rep, rule="R-LOOP-EQ"):
             else:
                 rep.ok(rule, where(f), inst, "every feasible value of the compared expression is met by the monotone sequence")
     return n
+
+
+def counted(loop):
+    """Shape of a counted `for` loop, independent of spelling: {'var', 'dir': 'asc'|'desc', 'first': (path|None, const),
+    'last': (path|None, const)} with an INCLUSIVE value range of the induction variable, or None.
+    Accepts i < B, i <= B, B > i, B >= i (and the descending counterparts), i++, ++i, i += 1, i = i + 1."""
+    from flow import linear
+    if loop.k != "ForStmt":
+        return None
+    init, cond, inc = loop.c[0], strip_casts(loop.c[1]), strip_casts(loop.c[2])
+    var = first = None
+    if init is not None:
+        for n in init.walk():
+            if n.k == "VarDecl" and n.c and n.c[0] is not None:
+                var, first = n.name, linear(n.c[0])
+            elif n.k == "BinaryOperator" and n.op == "=" and strip_casts(n.c[0]).k == "DeclRefExpr":
+                var, first = strip_casts(n.c[0]).name, linear(n.c[1])
+    if var is None or first is None or cond is None or inc is None:
+        return None
+    # direction
+    d = None
+    if inc.k == "UnaryOperator" and inc.op in ("++", "--") and access_path(inc.c[0]) == var:
+        d = "asc" if inc.op == "++" else "desc"
+    elif inc.k == "CompoundAssignOperator" and inc.op in ("+=", "-=") and access_path(inc.c[0]) == var and strip_casts(inc.c[1]).v == 1:
+        d = "asc" if inc.op == "+=" else "desc"
+    elif inc.k == "BinaryOperator" and inc.op == "=" and access_path(inc.c[0]) == var:
+        l = linear(inc.c[1])
+        if l and l[0] == var and l[1] in (1, -1):
+            d = "asc" if l[1] == 1 else "desc"
+    if d is None or cond.k != "BinaryOperator" or cond.op not in ("<", "<=", ">", ">="):
+        return None
+    a, b = strip_casts(cond.c[0]), strip_casts(cond.c[1])
+    op = cond.op
+    if access_path(b) == var and access_path(a) != var:
+        a, b = b, a
+        op = {"<": ">", "<=": ">=", ">": "<", ">=": "<="}[op]
+    if access_path(a) != var:
+        return None
+    bound = linear(b)
+    if bound is None:
+        return None
+    if d == "asc" and op in ("<", "<="):
+        last = (bound[0], bound[1] - (1 if op == "<" else 0))
+    elif d == "desc" and op in (">", ">="):
+        last = (bound[0], bound[1] + (1 if op == ">" else 0))
+    else:
+        return None
+    return {"var": var, "dir": d, "first": first, "last": last}
